@@ -217,12 +217,15 @@ func WithLoadOptions(loadOptions ...func(*loader.Options)) ProjectOptionsFn {
 // profiles specified via the COMPOSE_PROFILES environment variable otherwise.
 func WithDefaultProfiles(profiles ...string) ProjectOptionsFn {
 	return func(o *ProjectOptions) error {
-		if len(profiles) == 0 {
+		// the returned function may be applied more than once (to several ProjectOptions): what it reads from
+		// one environment must not stay behind in the captured arguments
+		selected := profiles
+		if len(selected) == 0 {
 			for _, s := range strings.Split(o.Environment[consts.ComposeProfiles], ",") {
-				profiles = append(profiles, strings.TrimSpace(s))
+				selected = append(selected, strings.TrimSpace(s))
 			}
 		}
-		o.loadOptions = append(o.loadOptions, loader.WithProfiles(profiles))
+		o.loadOptions = append(o.loadOptions, loader.WithProfiles(selected))
 		return nil
 	}
 }
